@@ -107,6 +107,38 @@ func (g s1Gen) query() string {
 	return b.String()
 }
 
+// s2Query: stage S2a — one directed hop, every variable read by the RETURN.
+func (g s1Gen) s2Query() string {
+	kinds := func(opts []string) string { return Pick(g.rng, opts) }
+	a := "(a" + kinds([]string{"", "", ":NodeKind1", ":NodeKind2:NodeKind1"}) + ")"
+	r := "[r" + kinds([]string{"", "", ":EdgeKind1", ":EdgeKind1|EdgeKind2"}) + "]"
+	b := "(b" + kinds([]string{"", "", ":NodeKind2", ":NodeKind1:NodeKind2"}) + ")"
+	mk := func(v string) string {
+		switch g.rng.Intn(3) {
+		case 0:
+			return v
+		case 1:
+			return "id(" + v + ")"
+		default:
+			return v + "." + Pick(g.rng, []string{"name", "a", "w", "zz"})
+		}
+	}
+	items := []string{mk("a"), mk("r"), mk("b")}
+	for i := g.rng.Intn(3); i > 0; i-- {
+		items = append(items, mk(Pick(g.rng, []string{"a", "r", "b"})))
+	}
+	for i := range items {
+		j := g.rng.Intn(i + 1)
+		items[i], items[j] = items[j], items[i]
+	}
+	for i := range items {
+		if g.rng.Chance(1, 3) {
+			items[i] += fmt.Sprintf(" as c%d", i)
+		}
+	}
+	return "match " + a + "-" + r + "->" + b + " return " + strings.Join(items, ", ")
+}
+
 func (c01TieSuite) Gen(rng *Rng, tier string, w *bufio.Writer, stats *Stats) {
 	n := 300
 	if tier == "thorough" {
@@ -116,5 +148,9 @@ func (c01TieSuite) Gen(rng *Rng, tier string, w *bufio.Writer, stats *Stats) {
 	for i := 0; i < n; i++ {
 		fmt.Fprintf(w, "# case %d s1\nq %s %d 4 0 0\n", i+1, jsonQuote(g.query()), rng.Intn(1<<20))
 		stats.Inc("s1_generated")
+	}
+	for i := 0; i < n/2; i++ {
+		fmt.Fprintf(w, "# case %d s2a\nq %s %d 4 0 0\n", n+i+1, jsonQuote(g.s2Query()), rng.Intn(1<<20))
+		stats.Inc("s2a_generated")
 	}
 }
